@@ -2,6 +2,11 @@
 // draw becomes an explorer choice point, so all outcomes are enumerated.
 package vrand
 
+import (
+	"fmt"
+	"sort"
+)
+
 // Hook answers a draw from [0,n).  Set by the harness for the duration of an execution.
 var Hook func(n int) int
 
@@ -27,3 +32,26 @@ func Int() int {
 }
 
 func Float64() float64 { return float64(Int()) / float64(IntDomain) }
+
+// MapMode decides the order in which rewritten `range` statements over maps visit the keys:
+// 0 the runtime's (random) order, 1 ascending by the printed key, 2 descending.  A result that
+// depends on map iteration order differs between modes 1 and 2 as soon as a map has two keys.
+var MapMode int
+
+// MapKeys snapshots the keys of m in the order MapMode asks for.
+func MapKeys[M ~map[K]V, K comparable, V any](m M) []K {
+	keys := make([]K, 0, len(m))
+	for k := range m {
+		keys = append(keys, k)
+	}
+	if MapMode != 0 {
+		sort.SliceStable(keys, func(i, j int) bool {
+			a, b := fmt.Sprint(keys[i]), fmt.Sprint(keys[j])
+			if MapMode == 1 {
+				return a < b
+			}
+			return a > b
+		})
+	}
+	return keys
+}
